@@ -2,7 +2,7 @@ import Narwhal.Generated.PoolOrder
 /-!
 # C19 — table obligation: the operation order the pool micro-step model assumes
 
-`Model/Pool.lean` splits `acquire` into *acquire-permit, pop* and `release` into *push, release-permit*; the safety
+`Model/Pool.lean` splits `acquire` into *acquire-permit, pop* and `release` (and dropping a buffer) into *push, release-permit*; the safety
 theorems (`C19_pop_never_panics`, `C19_exclusive`, `C19_conservation`) hold for every interleaving of steps **in that
 order**.  The order is read from the source on every run.
 -/
@@ -10,7 +10,7 @@ namespace Narwhal.Pool
 open Narwhal.Generated
 
 theorem pool_table_ok :
-    poolAcquirePermitFirst = true ∧ poolTryAcquirePermitFirst = true ∧ poolReleasePushFirst = true ∧ poolNoUnsafe = true := by
+    poolAcquirePermitFirst = true ∧ poolTryAcquirePermitFirst = true ∧ poolReleasePushFirst = true ∧ poolDropPushFirst = true ∧ poolNoUnsafe = true := by
   decide
 
 end Narwhal.Pool
